@@ -236,3 +236,24 @@ theorem C11.output_independent_of_any_history_fails_on_pinned_tree :
     (compile Cfg.orig id coroDesign ([crashInSM].foldl (fun g r => (compile Cfg.orig id r g).2) G.init)).1
       ≠ (compile Cfg.orig id coroDesign G.init).1 := by
   decide
+
+/-! ## per-class state: dynamic ports (`std.add_entity_port`) -/
+
+namespace CohdlVerif.C11
+/-- a design whose architecture adds two ports to its entity class -/
+def dynDesign : Design :=
+  [.enter .conv [], .enter .arch [7], .act (.addPort 1), .act (.addPort 2), .exit, .enter .blk [], .exit, .exit]
+end CohdlVerif.C11
+
+/-- the ports added by one elaboration stay on the class (they can be inspected after the build) ... -/
+theorem C11.dynamic_ports_kept_after_compile :
+    (compile Cfg.fixed id dynDesign G.init).2.dyn = [(7, 2), (7, 1)] := by decide
+
+/-- ... and are discarded when the class is elaborated again: compiling the same class a second (third, ..) time
+    gives the result of a pristine interpreter (instance of `C11.output_independent_of_any_history`), in particular
+    it is not rejected with "port already exists" -/
+theorem C11.dynamic_ports_recompile (perm : List Nat → List Nat) (k : Nat) :
+    (compile Cfg.fixed perm dynDesign ((List.replicate k dynDesign).foldl (fun g r => (compile Cfg.fixed perm r g).2) G.init)).1
+      = .ok [[9, 7, 1], [9, 7, 2]] := by
+  rw [C11.output_independent_of_any_history]
+  rfl
